@@ -183,27 +183,159 @@ ENGINE_TEXTS = [RULE_FILES['a.rules'], RULE_FILES['b.rules'], RULE_FILES['e.rule
                 '[Only]\nmatch: regex("\\\\S+ r1")\ncategory: One\n', '[Only]\nmatch: regex("\\\\s+ r1")\ncategory: Two\n']
 
 
+GEN_MATCH = ['contains("UBER")', 'contains("UBER") and contains("EATS")', 'contains("COFFEE")', 'amount > 10', 'contains("NETFLIX")',
+             'contains("COFFEE") and amount > 3', 'regex("\\\\S+ r1")']
+GEN_NAMES = ['Uber', 'Uber Eats', 'Coffee', 'Any', 'Netflix', 'Big']
+GEN_CATS = [('Transport', 'Rideshare'), ('Food', 'Delivery'), ('Food', 'Coffee'), ('Misc', 'Other'), ('Fun', 'TV')]
+
+
+def gen_rules_text(rng, focus=False):
+    if focus:
+        return gen_focus_text(rng)
+    return gen_general_text(rng)
+
+
+FOCUS_MATCH = ['contains("UBER")', 'contains("UBER") and contains("EATS")', 'amount > 10', 'contains("EATS")']
+
+
+def gen_focus_text(rng):
+    """Very small vocabulary: every rule matches the UBER transactions, so that priority / order / category decide
+    the outcome and any memo keyed on part of a rule goes stale on the next load."""
+    out = []
+    for nm in rng.sample(['Uber', 'Uber Eats', 'Any', 'Eats'], rng.randint(2, 3)):
+        cat, sub = rng.choice(GEN_CATS[:3])
+        lines = ['[%s]' % nm, 'match: ' + rng.choice(FOCUS_MATCH), 'category: ' + cat, 'subcategory: ' + sub]
+        if rng.random() < 0.7:
+            lines.append('priority: %d' % rng.choice([1, 50, 90]))
+        if rng.random() < 0.3:
+            lines.append('tags: ' + rng.choice(['fun', 'biz']))
+        if rng.random() < 0.2:
+            lines.append('merchant: %s Co' % nm)
+        out.append('\n'.join(lines) + '\n')
+    return '\n'.join(out)
+
+
+def gen_general_text(rng):
+    """A small rules file drawn from a tiny vocabulary, so that two files (or two versions of one file) share rule
+    names and match texts while differing in priority / category / tags / merchant / let / field."""
+    out = []
+    if rng.random() < 0.3:
+        out.append('is_large = amount > %d\n' % rng.choice([10, 100]))
+    names = rng.sample(GEN_NAMES, rng.randint(2, 4))
+    for nm in names:
+        cat, sub = rng.choice(GEN_CATS)
+        lines = ['[%s]' % nm, 'match: ' + rng.choice(GEN_MATCH)]
+        if rng.random() < 0.85:
+            lines += ['category: ' + cat, 'subcategory: ' + sub]
+            if rng.random() < 0.3:
+                lines.append('tags: ' + rng.choice(['fun', 'biz', 'fun, biz']))
+        else:
+            lines.append('tags: ' + rng.choice(['fun', 'biz', 'large']))
+        if rng.random() < 0.4:
+            lines.append('priority: %d' % rng.choice([1, 50, 90]))
+        if rng.random() < 0.2:
+            lines.append('merchant: %s %s' % (nm, rng.choice(['Inc', 'Co'])))
+        if rng.random() < 0.15:
+            lines.append('field: code = extract("r(\\\\d+)")')
+        out.append('\n'.join(lines) + '\n')
+    return '\n'.join(out)
+
+
 def load_kind(path):
     if path is None:
         return 'none'
     return 'rules' if path.endswith('.rules') else 'csv'
 
 
+def gen_focus_history(rng):
+    """Loads, reloads after edits and classifications concentrated on one family of transactions."""
+    extra = {'g1.rules': gen_focus_text(rng), 'g2.rules': gen_focus_text(rng)}
+    ops = [{'op': 'FILES', 'files': extra}]
+    engines = 0
+    uber = [j for j, t in enumerate(TXNS) if 'UBER' in t['description']]
+    for _ in range(rng.randint(6, 24)):
+        r = rng.random()
+        mode = rng.choice(['first_match', 'most_specific', 'most_specific'])
+        if r < 0.25:
+            ops.append({'op': 'LOAD', 'path': rng.choice(sorted(extra)), 'mode': mode})
+        elif r < 0.4:
+            p = rng.choice(sorted(extra))
+            ops.append({'op': 'EDIT', 'path': p, 'text': gen_focus_text(rng)})
+            ops.append({'op': 'LOAD', 'path': p, 'mode': mode})
+        elif r < 0.75:
+            ops.append({'op': 'CLASSIFY', 'txn': rng.choice(uber), 'rows': False, 'transforms': True})
+        elif r < 0.85 or not engines:
+            ops.append({'op': 'ENGINE', 'id': engines, 'text': 0, 'mode': mode, 'gen': gen_focus_text(rng)})
+            engines += 1
+        else:
+            ops.append({'op': 'MATCH', 'id': rng.randrange(engines), 'txn': rng.choice(uber), 'rows': False})
+    return ops
+
+
+COLLISION_GROUPS = [
+    ['regex("\\S+ r1")', 'regex("\\s+ r1")'], ['regex("NETFLIX\\b")', 'regex("NETFLIX\\B")'], ['regex("\\d+$")', 'regex("\\D+$")'],
+    ['amount > 5', 'amount>5', ' amount > 5', 'amount  >  5'],
+    ['contains("NETFLIX")', "contains('NETFLIX')", 'contains("netflix")', 'CONTAINS("NETFLIX")'],
+    ['(x := amount) > 5 and x < 100', 'x > 5', 'x'], ['month == 1', 'Month == 1'], ['true', 'True', 'false'],
+    ['extract("(\\S+) r")', 'regex("(\\S+) r")'],
+    ['len([r for r in orders if r.amount == txn.amount]) > 0', 'r.amount', 'r'],
+    ['description == "NETFLIX r1"', 'description == "netflix R1"', 'DESCRIPTION == "NETFLIX r1"'],
+    ['extract("(N\\w+)")', 'extract("(n\\W+)")', 'EXTRACT("(N\\w+)")'],
+]
+FILTER_GROUPS = [['category == "Food"', 'category=="Food"', 'CATEGORY == "food"', 'category == "FOOD"'], ['total > 10', 'total>10', 'TOTAL > 10'],
+                 ['"fun" in tags', "'fun' in tags", '"FUN" in tags'], ['amount > 5', 'x > 5']]
+for _g in COLLISION_GROUPS:
+    for _e in _g:
+        if _e not in EXPRS:
+            EXPRS.append(_e)
+for _g in FILTER_GROUPS:
+    for _e in _g:
+        if _e not in FILTERS:
+            FILTERS.append(_e)
+
+
+def gen_expr_history(rng):
+    """Members of a few collision groups evaluated back to back, in both orders, on a few transactions."""
+    ops = []
+    for _ in range(rng.randint(2, 4)):
+        if rng.random() < 0.75:
+            g = rng.choice(COLLISION_GROUPS)
+            txns = [rng.randrange(len(TXNS)) for _ in range(2)]
+            for _ in range(rng.randint(2, 6)):
+                ops.append({'op': 'EVAL', 'expr': EXPRS.index(rng.choice(g)), 'txn': rng.choice(txns), 'rows': rng.random() < 0.5})
+        else:
+            g = rng.choice(FILTER_GROUPS)
+            for _ in range(rng.randint(2, 5)):
+                ops.append({'op': 'FILTER', 'expr': FILTERS.index(rng.choice(g)), 'm': rng.randrange(len(MERCHANT_TXNS))})
+    return ops
+
+
 def gen_history(rng, tier):
+    r0 = rng.random()
+    if r0 < 0.35:
+        return gen_focus_history(rng)
+    if r0 < 0.55:
+        return gen_expr_history(rng)
     n = rng.randint(5, 40)
     ops = []
-    names = sorted(RULE_FILES)
+    extra = {'g1.rules': gen_rules_text(rng), 'g2.rules': gen_rules_text(rng), 'g3.rules': gen_rules_text(rng)}
+    ops.append({'op': 'FILES', 'files': extra})
+    names = sorted(RULE_FILES) + sorted(extra) + sorted(extra)
     engines = 0
     for _ in range(n):
         r = rng.random()
         if r < 0.2:
             p = rng.choice(names + [None])
-            ops.append({'op': 'LOAD', 'path': p, 'mode': rng.choice(['first_match', 'first_match', 'most_specific'])})
+            ops.append({'op': 'LOAD', 'path': p, 'mode': rng.choice(['first_match', 'most_specific'])})
         elif r < 0.27:
-            p = rng.choice(sorted(EDITS))
-            ops.append({'op': 'EDIT', 'path': p, 'version': rng.randrange(len(EDITS[p]))})
+            if rng.random() < 0.5:
+                p = rng.choice(sorted(extra))
+                ops.append({'op': 'EDIT', 'path': p, 'text': gen_rules_text(rng)})
+            else:
+                p = rng.choice(sorted(EDITS))
+                ops.append({'op': 'EDIT', 'path': p, 'version': rng.randrange(len(EDITS[p]))})
             if rng.random() < 0.7:
-                ops.append({'op': 'LOAD', 'path': p, 'mode': 'first_match'})
+                ops.append({'op': 'LOAD', 'path': p, 'mode': rng.choice(['first_match', 'most_specific'])})
         elif r < 0.34:
             p = rng.choice(['a.rules', 'b.rules', 'e.rules', 'c.csv'])
             if p in CORRUPT and rng.random() < 0.5:
@@ -219,8 +351,10 @@ def gen_history(rng, tier):
         elif r < 0.66:
             ops.append({'op': 'CLASSIFY_FILE', 'rows': rng.random() < 0.5})
         elif r < 0.72:
-            ops.append({'op': 'ENGINE', 'id': engines, 'text': rng.randrange(len(ENGINE_TEXTS)),
-                        'mode': rng.choice(['first_match', 'most_specific'])})
+            eop = {'op': 'ENGINE', 'id': engines, 'text': rng.randrange(len(ENGINE_TEXTS)), 'mode': rng.choice(['first_match', 'most_specific'])}
+            if rng.random() < 0.5:
+                eop['gen'] = gen_rules_text(rng)
+            ops.append(eop)
             engines += 1
         elif r < 0.8 and engines:
             ops.append({'op': 'MATCH', 'id': rng.randrange(engines), 'txn': rng.randrange(len(TXNS)), 'rows': rng.random() < 0.6})
@@ -368,9 +502,13 @@ def do_op(st, op, ch, root):
     from tally import merchant_utils as mu, expr_parser as ep, parsers, format_parser, merchant_engine as me, section_engine as se
     k = op['op']
     _ROOT[0] = os.path.realpath(root)
+    if k == 'FILES':
+        return ['files']
     if k == 'EDIT':
         if op.get('corrupt'):
             text = CORRUPT[op['path']]
+        elif 'text' in op:
+            text = op['text']
         else:
             text = EDITS[op['path']][op['version']]
         with proc._real_open(os.path.join(root, op['path']), 'w', encoding='utf-8') as f:
@@ -408,7 +546,7 @@ def do_op(st, op, ch, root):
                                 t['amount'], _canon_val(t.get('extra_fields')), _canon_val(t.get('field')),
                                 _match_info(t.get('match_info'))] for t in txns]]
         if k == 'ENGINE':
-            e = me.parse_merchants(ENGINE_TEXTS[op['text']], match_mode=op['mode'])
+            e = me.parse_merchants(op.get('gen') or ENGINE_TEXTS[op['text']], match_mode=op['mode'])
             st.engines[op['id']] = e
             return ['engine', _engine_struct(e)]
         if k == 'MATCH':
@@ -461,9 +599,12 @@ def files_at(ops, upto):
     """Rule directory content just before ops[upto] is performed."""
     files = dict(RULE_FILES)
     files['stmt.csv'] = STATEMENT
+    for op in ops:
+        if op['op'] == 'FILES':
+            files.update(op['files'])
     for op in ops[:upto]:
         if op['op'] == 'EDIT':
-            files[op['path']] = CORRUPT[op['path']] if op.get('corrupt') else EDITS[op['path']][op['version']]
+            files[op['path']] = CORRUPT[op['path']] if op.get('corrupt') else op['text'] if 'text' in op else EDITS[op['path']][op['version']]
     return files
 
 
@@ -526,7 +667,7 @@ def run_history(ops, scratch):
     rroot = os.path.join(scratch, 'R')
     epoch = None
     for j, op in enumerate(ops):
-        if op['op'] == 'EDIT':
+        if op['op'] in ('EDIT', 'FILES'):
             r_out.append(None)
             continue
         ctx, L = context_ops(ops, j)
@@ -644,7 +785,7 @@ def run_one(seed, i, tier, scratch):
     ops = gen_history(rng, tier)
     res = execute(ops, scratch, seed, i)
     if i < 2:
-        res['samples'] = [{'seed': seed, 'run': i, 'history': [op_label(o) if o['op'] != 'EDIT' else 'EDIT %s' % o['path'] for o in ops]}]
+        res['samples'] = [{'seed': seed, 'run': i, 'history': [op_label(o) if o['op'] not in ('EDIT', 'FILES') else '%s %s' % (o['op'], o.get('path', '')) for o in ops]}]
     return res
 
 
@@ -668,6 +809,8 @@ def shrink_candidates(schedule):
 
 
 def _valid(ops):
+    if any(o['op'] == 'FILES' for o in ops) != True and any(str(o.get('path') or '').startswith('g') for o in ops):
+        return False
     made = set()
     for op in ops:
         if op['op'] == 'ENGINE':
